@@ -165,6 +165,42 @@ func (e *SpecEnv) eval(ex Expr) SVal {
 			sfail("unknown type %s", n.Type)
 		}
 		return SVal{V: e.x.zeroVal(t), T: t}
+	case *EComposite:
+		t := e.lookupType(n.Type)
+		if t == nil {
+			sfail("unknown type %s", n.Type)
+		}
+		st, ok := t.Underlying().(*types.Struct)
+		if !ok {
+			sfail("%s is not a struct type", n.Type)
+		}
+		sv := e.x.zeroVal(t).(StructVal)
+		sv = StructVal{T: sv.T, F: append([]Val{}, sv.F...)}
+		for i, fname := range n.Fields {
+			found := false
+			for k := 0; k < st.NumFields(); k++ {
+				if st.Field(k).Name() == fname {
+					v := e.eval(n.Vals[i])
+					ft := st.Field(k).Type()
+					if v.C != nil {
+						ity, ok := intTyOf(ft)
+						if !ok {
+							sfail("constant for non-integer field %s", fname)
+						}
+						sv.F[k] = o.Const(ity, v.C)
+					} else if isStringType(ft) {
+						sv.F[k] = e.x.seqView(e.st(), v.V)
+					} else {
+						sv.F[k] = v.V
+					}
+					found = true
+				}
+			}
+			if !found {
+				sfail("no field %s in %s", fname, n.Type)
+			}
+		}
+		return SVal{V: sv, T: t}
 	case *EUnary:
 		switch n.Op {
 		case "!":
@@ -979,6 +1015,25 @@ func (e *SpecEnv) evalCall(n *ECall) SVal {
 		if pf, ok := ip.Contracts.Pures[name]; ok {
 			return e.callPure(ip, pf, n.Args)
 		}
+	}
+	// a module function declared `pure`: its uninterpreted application
+	if fc, ok := e.pk.Contracts.Funcs[name]; ok && fc.Pure {
+		fn := e.pk.LookupFunc(name)
+		if fn == nil {
+			sfail("pure function %s not found", name)
+		}
+		var args []Val
+		for i := range n.Args {
+			a := arg(i)
+			if a.C != nil {
+				ity, _ := intTyOf(fn.Params[i].Type())
+				args = append(args, o.Const(ity, a.C))
+			} else {
+				args = append(args, a.V)
+			}
+		}
+		rt := fn.Signature.Results().At(0).Type()
+		return SVal{V: e.x.pureApp(fn, fc, args, e.st(), o.ElemSort(rt)), T: rt}
 	}
 	sfail("unknown function %q in specification", name)
 	return SVal{}
